@@ -271,17 +271,40 @@ class SP:
                 p.eat("op", ";")
             return ("assign", f"{v}_{f}", e)
         if self.at("while") and p.peek(1) == ("id", "let"):
-            # `while let Some(&x) = a.get(self.index) { .. }`: a walk along the slice; the body must begin by advancing the
-            # index, so `len - index + 1` iterations always suffice
+            # `while let Some(&x) = a.get(self.index) { .. }`: a walk along the slice; every pass through the body advances
+            # the index by one exactly once, so `len - index + 1` iterations always suffice
             p.eat(); p.eat()
             p.eat("id", "Some"); p.eat("op", "("); p.eat("op", "&"); x = p.eat("id"); p.eat("op", ")")
             p.eat("op", "=")
             arr = p.eat("id"); p.eat("op", "."); p.eat("id", "get"); p.eat("op", "(")
             i = p.expr(); p.eat("op", ")")
             body = self.braced()
-            if not body or body[0] != ("assign", i, f"({i} + 1)"):
-                raise TieError(f"while let over {arr}: the body does not begin by advancing {i}")
+            tops = [st for st in body if st == ("assign", i, f"({i} + 1)")]
+            nested = set()
+            for st in body:
+                if st[0] != "assign":
+                    nested |= assigned([st])
+            if len(tops) != 1 or i in nested or len([st for st in body if st[0] == "assign" and st[1] == i]) != 1:
+                raise TieError(f"while let over {arr}: the body does not advance {i} by one exactly once")
             return ("whilelet", x, arr, i, body)
+        if self.at("while") and p.peek(1)[0] == "id" and p.peek(1)[1] == "self":
+            # `while self.f < bound { .. }` where the body advances `self.f` by one exactly once per iteration and leaves the
+            # bound alone: `bound - self.f` iterations always suffice; the body may `return`
+            p.eat()
+            X = p.bor(); p.eat("op", "<"); Y = p.bor()
+            body = self.braced()
+            tops = [st for st in body if st[0] == "assign" and st[1] == X]
+            nested = set()
+            for st in body:
+                if st[0] not in ("assign", "let"):
+                    nested |= assigned([st])
+            adv = len(tops) == 1 and (tops[0][2] == f"({X} + 1)" or
+                                      (tops[0][2].startswith("(1 + ") and ("let", tops[0][2][5:-1], X) in body))
+            if not adv or X in nested or any(re.search(r'\b%s\b' % re.escape(v), Y) for v in assigned(body)):
+                raise TieError(f"while {X} < {Y}: the body does not advance {X} by one exactly once, or changes the bound")
+            c = f"({X} < {Y})"
+            p.props.add(c)
+            return ("whilelt", X, Y, body)
         if self.at("while"):
             p.eat()
             c = p.expr()
@@ -357,7 +380,10 @@ class SP:
         if self.at("if") and p.peek(1) == ("id", "let"):
             p.eat(); p.eat()
             ctor = p.eat("id")
-            p.eat("op", "("); v = p.eat("id"); p.eat("op", ")")
+            p.eat("op", "(")
+            if p.peek() == ("op", "&"):
+                p.eat()
+            v = p.eat("id"); p.eat("op", ")")
             p.eat("op", "=")
             if ctor == "Some":
                 arr = p.eat("id"); p.eat("op", "."); m = p.eat("id"); p.eat("op", "(")
@@ -372,8 +398,10 @@ class SP:
             else:
                 raise TieError(f"if let {ctor}")
             a = self.braced()
-            p.eat("id", "else")
-            b = self.braced()
+            b = []
+            if self.at("else"):
+                p.eat("id", "else")
+                b = self.braced()
             return ("iflet", v, scrut, a, b)
         if self.at("if"):
             arms = []
@@ -448,6 +476,10 @@ def assigned(stmts):
             out |= assigned(s[5])
         elif s[0] == "whilelet":
             out |= assigned(s[4])
+        elif s[0] == "whilelt":
+            out |= assigned(s[3])
+        elif s[0] == "iflet":
+            out |= assigned(s[3]) | assigned(s[4])
         elif s[0] == "matchlf":
             for _, (_, b) in s[2].items():
                 out |= assigned(b)
@@ -469,6 +501,8 @@ class Gen:
         self.szvar = None         # `&mut self` arms: the header's member count is returned with the answer
     def value(self, e):
         v = f"(decide {e})" if e in self.props else e
+        if self.retstate and self.inwhile:
+            return f"(Except.error ({v}, {self.retstate}))"
         if self.retstate:
             return f"({v}, {self.retstate})"
         if self.pure:
@@ -477,6 +511,7 @@ class Gen:
             return f"(Except.ok (({v}, {self.szvar}), a))"
         return f"(Except.ok ({e}, a))"
     boolexprs = set()
+    inwhile = 0               # inside a `while` that may `return`: the loop function yields `Except.error value`
     retstate = None           # `&mut self` methods of a plain struct: the fields are returned with the value
     def diverges(self, s):
         """every branch of the `if` statement ends in return / panic"""
@@ -595,6 +630,29 @@ class Gen:
             pats1 = ", ".join([f"{v} :: {restv}"] + muts)
             self.defs.append(f"def {fname} {sig} : {arrow}\n  | {pats0} => {after}\n  | {pats1} => {bodyt}")
             return f"({fname} {' '.join(immut)} {xs} {' '.join(muts)})".replace("  ", " ")
+        if k == "whilelt":
+            _, X, Y, body = s
+            self.nloops += 1
+            idx = self.nloops
+            fname = f"{self.name}_loop{idx}"
+            fuel = f"fuel{idx}"
+            muts = [y for y in scope if y in assigned(body)]
+            immut = [y for y in scope if y not in muts]
+            mt = "(" + ", ".join(muts) + ")"
+            mtty = " × ".join(self.ty(y) for y in muts)
+            cont = f"({fname} {' '.join(immut)} {fuel} {' '.join(muts)})".replace("  ", " ")
+            self.inwhile += 1
+            bodyt = self.comp(body, scope + [fuel], cont)
+            self.inwhile -= 1
+            sig = " ".join(f"({y} : {self.ty(y)})" for y in immut)
+            mty = " → ".join(self.ty(y) for y in muts)
+            ms = ", ".join(muts)
+            self.defs.append(f"def {fname} {sig} : Nat → {mty} → Except ({self.ret}) ({mtty})\n  | 0, {ms} => Except.ok {mt}\n"
+                             f"  | {fuel} + 1, {ms} => (if {X} < {Y} then {bodyt} else Except.ok {mt})")
+            restt = self.comp(rest, scope, tail)
+            err = "Except.error r" if self.inwhile else "r"
+            return (f"(match {fname} {' '.join(immut)} ({Y} - {X}) {' '.join(muts)} with | Except.error r => {err} "
+                    f"| Except.ok {mt} => {restt})").replace("  ", " ")
         if k == "whilelet":
             _, x, arr, i, body = s
             self.nloops += 1
@@ -964,6 +1022,48 @@ def gen_iter_big(isrc, W, suffix):
     sig = " ".join(f"({x} : {t})" for x, t in params)
     return g.defs + [f"def iter_next_big_{suffix} {sig} : {ret} := {top}"]
 
+def gen_iter_arm(isrc, src, W, suffix, arm):
+    """the `Heap` / `Dense` arm of `Inner::next` (iter.rs): nested loops over buckets (words) and bits"""
+    ty = "u64" if W == 64 else "u32"
+    m = re.search(r'impl<T: Borrow<Set%s>> Iterator for Inner<T> \{\s*type Item = %s;\s*(?:#\[inline\]\s*)?fn next\(&mut self\) -> Option<Self::Item> \{' % (ty.upper(), ty), isrc)
+    if not m:
+        raise TieError(f"cannot find Inner::next ({suffix})")
+    fb = body_of(isrc, m.end() - 1)[0]
+    out = []
+    if arm == "heap":
+        mm = re.search(r'Internal::Heap \{ a, \.\. \} => \{', fb)
+        if not mm:
+            raise TieError(f"Inner::next ({suffix}): Heap arm")
+        body = body_of(fb, mm.end() - 1)[0]
+        um = re.search(r'\nfn unsplit_%s\(k: %s, offset: %s, bits: %s\) -> %s \{' % (ty, ty, ty, ty, ty), src)
+        if not um:
+            raise TieError(f"cannot find unsplit_{ty}")
+        from gen_fns import tr_block
+        out.append(f"def unsplit_{suffix} (k offset bits : Nat) : Nat := {tr_block(body_of(src, um.end() - 1)[0], W, set(), suffix)}")
+        body = body.replace(f"unsplit_{ty}(", "unsplit(")
+    else:
+        mm = re.search(r'Internal::Dense \{ a, \.\. \} => loop \{', fb)
+        if not mm:
+            raise TieError(f"Inner::next ({suffix}): Dense arm")
+        body = body_of(fb, mm.end() - 1)[0]
+        # `loop { if let Some(word) = a.get(i) { .. } else { return None; } }` is `while let Some(word) = a.get(i) { .. } None`
+        body, n1 = re.subn(r'^\s*if let Some\(word\) = a\.get\(self\.index\) \{', 'while let Some(&word) = a.get(self.index) {', body, count=1)
+        body, n2 = re.subn(r'\} else \{\s*return None;\s*\}\s*$', '} None', body, count=1)
+        if (n1, n2) != (1, 1):
+            raise TieError(f"Inner::next ({suffix}): Dense arm shape {(n1, n2)}")
+    sp = SP(lex(body), W, suffix)
+    sp.p.fnames = {"unsplit"}
+    stmts = sp.block()
+    if sp.p.peek()[0] != "eof":
+        raise TieError(f"Inner::next {arm} arm: trailing tokens {sp.p.peek()}")
+    params = [("a", "Array Nat"), ("self_bits", "Nat"), ("self_index", "Nat"), ("self_whichbit", "Nat"), ("self_sz_left", "Nat")]
+    ret = "Option Nat × Nat × Nat × Nat"
+    g = Gen(f"iter_next_{arm}_{suffix}", params, ret, pure=True, props=sp.p.props)
+    g.retstate = "self_index, self_whichbit, self_sz_left"
+    top = g.comp(stmts, [x for x, _ in params], None)
+    sig = " ".join(f"({x} : {t})" for x, t in params)
+    return out + g.defs + [f"def iter_next_{arm}_{suffix} {sig} : {ret} := {top}"]
+
 def gen_loops(s64, s32, i64=None, i32=None):
     out = ["import TinysetModel.Generated.Fns", "import TinysetModel.Generated.Consts",
            "/-! GENERATED by /verif/tools/gen_loops.py from src/setu64.rs and src/setu32.rs — do not edit.",
@@ -1005,6 +1105,8 @@ def gen_loops(s64, s32, i64=None, i32=None):
         if isrc is not None:
             out += gen_iter_stack(isrc, W, suffix)
             out += gen_iter_big(isrc, W, suffix)
+            out += gen_iter_arm(isrc, src, W, suffix, "heap")
+            out += gen_iter_arm(isrc, src, W, suffix, "dense")
     out.append("end Gen")
     return "\n".join(out) + "\n"
 
